@@ -272,4 +272,13 @@ pub struct Case {
     /// repeat the call this many extra times (C18)
     #[serde(default)]
     pub repeat: u32,
+    /// formatter fault plan executed by the stub `rustfmt` (C19); "absent" = no formatter on PATH
+    #[serde(default, skip_serializing_if = "Option::is_none")]
+    pub fmt_plan: Option<String>,
+    /// the parent waits at the `fmt.spawned` sync point so that the child has finished before the write
+    #[serde(default)]
+    pub fmt_late: bool,
+    /// "small" / "large": program text below / above the OS pipe buffer (C19)
+    #[serde(default, skip_serializing_if = "Option::is_none")]
+    pub size_class: Option<String>,
 }
